@@ -55,7 +55,16 @@ def build_stream(spec, d):
     model = b""
     samp_bytes = nchans * nbits // 8
     pos_samples = 0
+    same_as = spec.get("same_as") or [None] * len(spec["sections"])
+    bodies = []
     for i, nb in enumerate(spec["sections"]):
+        if same_as[i] is not None:
+            # the list names an earlier file again: the stream is the concatenation in LIST order, repeats included
+            paths.append(paths[same_as[i]])
+            bodies.append(bodies[same_as[i]])
+            model += bodies[-1]
+            pos_samples += nb // max(1, samp_bytes)
+            continue
         body = rng.integers(0, 256, size=nb, dtype=np.uint8).tobytes()
         if nbits == 32:
             # keep float payloads finite so bit comparisons are well defined through numpy
@@ -68,6 +77,7 @@ def build_stream(spec, d):
         with open(p, "wb") as fp:
             fp.write(hdr + body)
         paths.append(p)
+        bodies.append(body)
         model += body
         pos_samples += nb // max(1, samp_bytes)
     return paths, model
@@ -275,6 +285,8 @@ def run_history(case, ctx):
         labels.append("ragged")
     if case["stream"].get("relpath"):
         labels.append("relative_names_then_chdir")
+    if case["stream"].get("same_as"):
+        labels.append("file_listed_twice")
     if 0 in case["stream"]["sections"]:
         labels.append("empty_file")
     return Info(nontrivial, tuple(labels))
@@ -296,8 +308,14 @@ def stream_spec(draw, max_samples_per_file=6):
         if nfiles == 3 and draw(st.integers(0, 9)) == 0:
             sections[1] = 0
             ragged = True  # contiguity of an empty member is not meaningful: opened without the check
+    same_as = None
+    if nfiles >= 2 and draw(st.integers(0, 7)) == 0:
+        # the same file listed twice ([a, a] or [a, b, a]); such a list is opened without the contiguity check
+        sections[-1] = sections[0]
+        same_as = [None] * (nfiles - 1) + [0]
+        ragged = True
     return {"nbits": nbits, "nchans": nchans, "sections": sections, "seed": draw(st.integers(0, 2**31 - 1)),
-            "ragged": ragged, "relpath": draw(st.sampled_from([False, False, False, True]))}
+            "ragged": ragged, "relpath": draw(st.sampled_from([False, False, False, True])), "same_as": same_as}
 
 
 def op_strategy():
